@@ -526,9 +526,8 @@ class C06(HeapCheck):
         return HeapCheck.compare(self, case, obs, answers)
 
     def finding_key(self, case, obs, failure):
-        if "provoke" in case and failure.endswith(" [RuntimeError while the resolved link was assigned once more]"):
-            return "relink-after-merge"
-        # link-refused-by-merge-keeps-link was repaired by 06cfd75: a regression is a VIOLATION
+        # relink-after-merge was repaired by dccf4ba, link-refused-by-merge-keeps-link by 06cfd75:
+        # a regression is a VIOLATION
         return None
 
     def tag(self, case, obs):
